@@ -26,6 +26,10 @@ def ite_val(c, a, b):
         return VReal(z3.If(c, x, y))
     if isinstance(a, VTuple) and isinstance(b, VTuple) and len(a.items) == len(b.items):
         return VTuple([ite_val(c, x, y) for x, y in zip(a.items, b.items)])
+    if isinstance(a, VSeq) and isinstance(b, (VSeq, VTuple)) or isinstance(b, VSeq) and isinstance(a, VTuple):
+        ety = a.e if isinstance(a, VSeq) else b.e
+        x, y = coerce(a, ('seq', ety)), coerce(b, ('seq', ety))
+        return VSeq(z3.If(c, x.len, y.len), lambda i: from_term(ety, z3.If(c, to_term(x.at(i)), to_term(y.at(i)))), ety)
     if isinstance(a, VBytes) and isinstance(b, VBytes):
         if a._term is not None and b._term is not None:
             if a._term.eq(b._term):
@@ -788,6 +792,7 @@ class CallMixin:
                 self.qvars = {}
             saved_q = dict(self.qvars)
             self.qvars[var] = VInt(x)
+            BINDER_DEPTH[0] += 1
             try:
                 if len(e.args) == 4:
                     (s, vals), = self.eval_many(st, e.args[1:])
@@ -798,6 +803,7 @@ class CallMixin:
                     rng = z3.BoolVal(True)
                     body = self.truth(s, vals[0])
             finally:
+                BINDER_DEPTH[0] -= 1
                 st.frames[st.cur].pop(var, None)
                 self.qvars = saved_q
             if name == 'forall':
